@@ -19,6 +19,7 @@ use crate::client::conn::Transport;
 
 use super::key::Token;
 use super::Config;
+use super::Join;
 use super::PoolRef;
 use super::PoolableConnection;
 use super::Pooled;
@@ -103,6 +104,8 @@ where
     B: Send + 'static,
 {
     Connected(Pooled<C, B>),
+    /// The connection attempt this checkout was waiting for ended without a connection.
+    Released,
     Closed,
     NotReady,
 }
@@ -123,7 +126,7 @@ where
             },
             WaitingProjected::Connecting(rx) => match rx.poll(cx) {
                 Poll::Ready(Ok(connection)) => Poll::Ready(WaitingPoll::Connected(connection)),
-                Poll::Ready(Err(_)) => Poll::Ready(WaitingPoll::Closed),
+                Poll::Ready(Err(_)) => Poll::Ready(WaitingPoll::Released),
                 Poll::Pending => Poll::Pending,
             },
             WaitingProjected::NoPool => Poll::Ready(WaitingPoll::Closed),
@@ -133,7 +136,7 @@ where
         // dialing on its own while it continues to wait for a connection handed back to the pool.
         if matches!(
             polled,
-            Poll::Ready(WaitingPoll::Connected(_) | WaitingPoll::Closed)
+            Poll::Ready(WaitingPoll::Connected(_) | WaitingPoll::Released | WaitingPoll::Closed)
         ) {
             self.as_mut().set(Waiting::NoPool);
         };
@@ -199,6 +202,10 @@ where
     connection: Option<P::Connection>,
     /// `connection` is a handle to a multiplexed connection which the pool still holds itself.
     shared: bool,
+    /// This checkout registered itself with the pool as the connection attempt in progress.
+    owns_attempt: bool,
+    /// The connection this checkout asks for can be multiplexed.
+    multiplex: bool,
     meta: ConnectorMeta,
     #[cfg(debug_assertions)]
     id: CheckoutId,
@@ -245,6 +252,9 @@ where
                     inner: InnerCheckoutConnecting::ConnectingDelayed(connector.take().unwrap()),
                     connection: None,
                     shared: false,
+                    // The attempt in progress moves to the background with the connector.
+                    owns_attempt: std::mem::replace(this.owns_attempt, false),
+                    multiplex: *this.multiplex,
                     meta: ConnectorMeta::new(), // New meta to avoid holding spans in the spawned task
                     #[cfg(debug_assertions)]
                     id: *this.id,
@@ -283,12 +293,15 @@ where
             inner: InnerCheckoutConnecting::Connecting(connector),
             connection: None,
             shared: false,
+            owns_attempt: false,
+            multiplex: false,
             meta: ConnectorMeta::new(),
             #[cfg(debug_assertions)]
             id,
         }
     }
 
+    #[allow(clippy::too_many_arguments)]
     pub(super) fn new(
         token: Token,
         pool: PoolRef<P::Connection, B>,
@@ -296,6 +309,9 @@ where
         connect: Option<Connector<T, P, B>>,
         connection: Option<P::Connection>,
         shared: bool,
+        wait_for_attempt: bool,
+        owns_attempt: bool,
+        multiplex: bool,
         config: &Config,
     ) -> Self {
         #[cfg(debug_assertions)]
@@ -314,6 +330,8 @@ where
                 inner: InnerCheckoutConnecting::Connected,
                 connection,
                 shared,
+                owns_attempt,
+                multiplex,
                 meta,
                 #[cfg(debug_assertions)]
                 id,
@@ -327,13 +345,23 @@ where
                 InnerCheckoutConnecting::Connecting(connector)
             };
 
+            // A checkout which waits for an attempt in progress elsewhere does not poll its own
+            // connector until that attempt has delivered a connection or has been given up.
+            let waiter = if wait_for_attempt {
+                Waiting::Connecting(waiter)
+            } else {
+                Waiting::Idle(waiter)
+            };
+
             Self {
                 token,
                 pool,
-                waiter: Waiting::Idle(waiter),
+                waiter,
                 inner,
                 connection,
                 shared,
+                owns_attempt,
+                multiplex,
                 meta,
                 #[cfg(debug_assertions)]
                 id,
@@ -347,6 +375,8 @@ where
                 inner: InnerCheckoutConnecting::Waiting,
                 connection,
                 shared,
+                owns_attempt,
+                multiplex,
                 meta,
                 #[cfg(debug_assertions)]
                 id,
@@ -380,10 +410,44 @@ where
             // Open questions: Should we check the pool for a different connection when the
             // waiter is pending? Probably not, ideally our semantics should keep the pool
             // from containing multiple connections if they can be multiplexed.
-            if let WaitingPoll::Connected(connection) = ready!(this.waiter.as_mut().poll(cx)) {
-                debug!(token=?this.token, "connection recieved from waiter");
+            loop {
+                match ready!(this.waiter.as_mut().poll(cx)) {
+                    WaitingPoll::Connected(connection) => {
+                        debug!(token=?this.token, "connection recieved from waiter");
 
-                return Poll::Ready(Ok(connection));
+                        return Poll::Ready(Ok(connection));
+                    }
+                    WaitingPoll::Released => {
+                        // The attempt this checkout was waiting for is gone. Join the pool again:
+                        // there may be a connection by now, another attempt to wait for, or it is
+                        // this checkout's turn to connect.
+                        trace!(token=?this.token, "released from waiting, joining pool again");
+                        let joined = this
+                            .pool
+                            .lock()
+                            .map(|mut pool| pool.join(*this.token, *this.multiplex));
+                        match joined {
+                            Some(Join::Connection { connection, shared }) => {
+                                *this.connection = Some(connection);
+                                *this.shared = shared;
+                                this.inner.set(InnerCheckoutConnecting::Connected);
+                                break;
+                            }
+                            Some(Join::Wait(rx)) => {
+                                this.waiter.set(Waiting::Connecting(rx));
+                            }
+                            Some(Join::Connect {
+                                waiter,
+                                owns_attempt,
+                            }) => {
+                                this.waiter.set(Waiting::Idle(waiter));
+                                *this.owns_attempt = owns_attempt;
+                            }
+                            None => break,
+                        }
+                    }
+                    WaitingPoll::Closed | WaitingPoll::NotReady => break,
+                }
             }
         }
 
@@ -440,12 +504,10 @@ where
                 this.waiter.close();
                 this.inner.set(InnerCheckoutConnecting::Connected);
 
-                match result {
-                    Ok(connection) => {
-                        Poll::Ready(Ok(register_connected(this.pool, *this.token, connection)))
-                    }
-                    Err(e) => Poll::Ready(Err(e)),
-                }
+                let outcome =
+                    result.map(|connection| register_connected(this.pool, *this.token, connection));
+                finish_attempt(this.pool, *this.token, this.owns_attempt);
+                Poll::Ready(outcome)
             }
             CheckoutConnectingProj::ConnectingWithDelayDrop(Some(connector))
             | CheckoutConnectingProj::ConnectingDelayed(connector) => {
@@ -470,17 +532,29 @@ where
                 this.waiter.close();
                 this.inner.set(InnerCheckoutConnecting::Connected);
 
-                match result {
-                    Ok(connection) => {
-                        Poll::Ready(Ok(register_connected(this.pool, *this.token, connection)))
-                    }
-                    Err(e) => Poll::Ready(Err(e)),
-                }
+                let outcome =
+                    result.map(|connection| register_connected(this.pool, *this.token, connection));
+                finish_attempt(this.pool, *this.token, this.owns_attempt);
+                Poll::Ready(outcome)
             }
             CheckoutConnectingProj::ConnectingWithDelayDrop(None) => {
                 // Something stole our connection, this is an error state.
                 panic!("connection was stolen from checkout")
             }
+        }
+    }
+}
+
+/// The connection attempt of a checkout is over (either way): if other checkouts were
+/// told to wait for it, tell the pool so that those still waiting are released.
+fn finish_attempt<C, B>(poolref: &PoolRef<C, B>, token: Token, owns_attempt: &mut bool)
+where
+    C: PoolableConnection<B>,
+    B: Send + 'static,
+{
+    if std::mem::replace(owns_attempt, false) {
+        if let Some(mut pool) = poolref.lock() {
+            pool.cancel_connection(token);
         }
     }
 }
@@ -553,9 +627,12 @@ where
                     tracing::error!(error=%err, "error during delayed drop");
                 }
             });
-        } else if let Some(mut pool) = self.pool.lock() {
-            // Connection is only cancled when no delayed drop occurs.
-            pool.cancel_connection(self.token);
+        } else if self.owns_attempt {
+            // The attempt in progress is only cancelled by the checkout which registered it,
+            // and only when no delayed drop occurs.
+            if let Some(mut pool) = self.pool.lock() {
+                pool.cancel_connection(self.token);
+            }
         }
     }
 }
